@@ -148,10 +148,21 @@ class Explorer:
         self.real_as = Fraction   # how concrete reals are materialised
 
     # ------------------------------------------------------------------ run
-    def explore(self, fn):
-        """Run fn(ex) over every feasible path. Returns True when exhausted."""
+    def explore(self, fn, prefix=None, depth_limit=None):
+        """Run fn(ex) over every feasible path. Returns True when exhausted.
+
+        prefix: list of [kind, value] decisions that are forced (work splitting:
+        a pilot run with depth_limit=D records every decision prefix of length D
+        in self.frontier; each is then explored by a separate worker)."""
         assert self.mode == "sym"
         self.stack = []
+        self.depth_limit = depth_limit
+        self.frontier = []
+        self.nforced = 0
+        if prefix:
+            for kind, v in prefix:
+                self.stack.append(["b", v, False] if kind == "b" else [kind, 0, [v]])
+            self.nforced = len(prefix)
         while True:
             self._begin_path()
             try:
@@ -163,9 +174,9 @@ class Explorer:
                 raise Inconclusive(f"path budget {self.max_paths} exhausted")
             st = self.stack
             del st[self.pos:]
-            while st and not self._advance(st[-1]):
+            while len(st) > self.nforced and not self._advance(st[-1]):
                 st.pop()
-            if not st:
+            if len(st) <= self.nforced:
                 return True
 
     def _begin_path(self):
@@ -244,6 +255,7 @@ class Explorer:
             self.pos += 1
             self.solver.add(cond if v else z3.Not(cond))
             return v
+        self._frontier_check()
         rt = self._check("q_feas", cond)
         if rt == z3.unknown:
             raise Inconclusive(f"unknown feasibility: {self.solver.reason_unknown()}")
@@ -275,6 +287,7 @@ class Explorer:
             e = self.stack[i]
             assert e[0] == "c", f"replay desync: expected choose, stack has {e[0]}"
         else:
+            self._frontier_check()
             e = ["c", 0, range(n)]
             self.stack.append(e)
             self.stats.decisions += 1
@@ -282,6 +295,13 @@ class Explorer:
         v = e[2][e[1]]
         self.choices.append(v)
         return v
+
+    def _frontier_check(self):
+        """Pilot runs stop at depth_limit and record the decision prefix."""
+        if self.depth_limit is not None and self.pos >= self.depth_limit:
+            self.frontier.append([[e[0], (e[1] if e[0] == "b" else e[2][e[1]])] for e in self.stack[:self.pos]])
+            self.stats.frontier = getattr(self.stats, "frontier", 0) + 1
+            raise Abort()
 
     def pick(self, seq, label=None):
         seq = list(seq)
@@ -301,6 +321,7 @@ class Explorer:
             e = self.stack[i]
             assert e[0] == "e", f"replay desync: expected enum, stack has {e[0]}"
         else:
+            self._frontier_check()
             vals = []
             self.solver.push()
             self.solver.add(term >= lo, term <= hi)
